@@ -524,7 +524,8 @@ type c17In struct {
 	Perm     *uint32   `json:"perm,omitempty"`
 	Request  string    `json:"request,omitempty"`
 	Shape    *c17Shape `json:"shape,omitempty"`
-	BV       *c17BV    `json:"bv,omitempty"` // part "bv" (c17d.go)
+	BV       *c17BV    `json:"bv,omitempty"`   // part "bv" (c17d.go)
+	Pair     *c17Pair  `json:"pair,omitempty"` // part "pair" (c17e.go)
 }
 
 func u32p(v uint32) *uint32 { return &v }
@@ -1109,6 +1110,11 @@ func c17Replay(c *lib.Ctx) bool {
 		if !c17BVReplay(c, in.BV) {
 			return false
 		}
+	case "pair":
+		if in.Pair == nil {
+			return false
+		}
+		checkC17Pairs(c, in.Pair)
 	default:
 		return false
 	}
